@@ -1377,6 +1377,27 @@ def rule_size_agree(ctx, cfg, F):
                 if g.dominates(b2, b) and _in_loop(g, b2):
                     e2 = expr_strip_blocks(exg.of_operand(t2["args"][1]))
                     r_fn = r_fn or _find_call(e2, lambda n: n.startswith("platform::") and n.endswith("::fragment_size"))
+    if not (s_fn and r_fn):
+        # the size functions were inlined (moved onto a helper type, or written out): compare the chunk terms themselves --
+        # sender `min(position + X, len)`, receiver `min(len(buffer) + Y, total)`; X must be Y with the estimate in place of the system value
+        def chunk_terms(fn_, exx):
+            out = []
+            for b_ in fn_.live_blocks():
+                for si_, st_ in enumerate(fn_.stmts(b_)):
+                    pass
+            for b_, t_ in fn_.calls():
+                if strip_generics(callee_name(t_)) in ("std::cmp::min", "std::cmp::Ord::min") and _in_loop(fn_, b_):
+                    for a_ in t_["args"]:
+                        e_ = expr_strip_blocks(exx.of_operand(a_))
+                        if e_[0] == "bin" and e_[1] in ("Add", "AddUnchecked"):
+                            out.append(e_[3])
+                        elif e_[0] == "field" and e_[1][0] == "bin" and e_[1][1] == "AddWithOverflow":
+                            out.append(e_[1][3])
+            return out
+        st_, rt_ = chunk_terms(f, ex), chunk_terms(g, exg)
+        if st_ and rt_ and all(repr(x) == repr(rt_[0]) for x in st_ + rt_) and "static" in repr(rt_[0]):
+            R.ok("follow-up chunk term is the same expression on both sides: %s" % expr_str(rt_[0]), g.loc(0), cfg)
+            return
     if s_fn and r_fn and s_fn[1] == r_fn[1]:
         rarg = r_fn[2][0] if r_fn[2] else None
         sys_ok = rarg is not None and "static" in repr(rarg)
